@@ -20,7 +20,7 @@ import (
 func init() {
 	Register("C18", &CheckInfo{
 		Fn: checkC18, Level: "model_checking",
-		Rule: "(a) every transaction of 1..3 (quick) / 1..4 (thorough) messages over {CreateValidator, Delegate, BeginRedelegate, CancelUnbondingDelegation, Undelegate, bank Send} x amounts {1, 3, 5%, 5%+1, 6% of baseline} x current/baseline in {0.96,1,1.04} x baseline in {0,20,1e9+7} is offered to the real TrackStakeChangesDecorator (real reporter keeper and tracker store, current bonded total supplied by a stub); oracle (one direction, as stated): admitted => bonded+sum(adds) <= 105% and bonded-sum(undelegations) >= 95% of the baseline; (b) tracker monitor on all <=k-deviation histories around the shared skeletons: the recorded baseline/expiry change only at an EndBlock whose block time is >= the stored expiry, and then to the bonded total of that moment",
+		Rule: "(a) every transaction of 1..3 (quick) / 1..4 (thorough) messages over {CreateValidator, Delegate, BeginRedelegate, CancelUnbondingDelegation, Undelegate, bank Send} x amounts {1, 5%, 5%+1, 6% of baseline, remaining headroom+1 upwards / downwards from the current total} x current/baseline in {0.96,1,1.04} x baseline in {0,20,1e9+7} is offered to the real TrackStakeChangesDecorator (real reporter keeper and tracker store, current bonded total supplied by a stub); oracle (one direction, as stated): admitted => bonded+sum(adds) <= 105% and bonded-sum(undelegations) >= 95% of the baseline; (b) tracker monitor on all <=k-deviation histories around the shared skeletons: the recorded baseline/expiry change only at an EndBlock whose block time is >= the stored expiry, and then to the bonded total of that moment",
 		QuickBudget: 10 * time.Minute, ThoroughBudget: 15 * time.Minute,
 	})
 }
@@ -116,9 +116,17 @@ func c18Enum(rc *RunCtx) {
 	for _, base := range []int64{0, 20, 1_000_000_007} {
 		baseline := math.NewInt(base)
 		fivePct := baseline.QuoRaw(20)
-		amts := []math.Int{math.OneInt(), math.NewInt(3), fivePct, fivePct.AddRaw(1), baseline.MulRaw(6).QuoRaw(100)}
 		for _, ratio := range []int64{96, 100, 104} {
 			cur := baseline.MulRaw(ratio).QuoRaw(100)
+			// besides amounts relative to the baseline: one unit beyond what is still allowed from the current total
+			// (the bounds are anchored to the recorded amount, not to the current one)
+			amts := []math.Int{math.OneInt(), fivePct, fivePct.AddRaw(1), baseline.MulRaw(6).QuoRaw(100)}
+			if up := baseline.Add(fivePct).Sub(cur); up.IsPositive() {
+				amts = append(amts, up.AddRaw(1))
+			}
+			if down := cur.Sub(baseline.Sub(fivePct)); down.IsPositive() {
+				amts = append(amts, down.AddRaw(1))
+			}
 			if err := w.App.ReporterKeeper.Tracker.Set(w.Ctx, reportertypes.StakeTracker{Expiration: &exp, Amount: baseline}); err != nil {
 				panic(err)
 			}
